@@ -92,6 +92,27 @@ CLAIMS = {
 # Additions after the unseen batches 3 and 4 (DESIGN.md §5.2, §5.3): (technique suffix, decided suffix)
 ADD5 = {'C01': ('who-may-call rule for os.Link/os.Symlink', 'no backend function hard-links or symlinks one key (or version) to another.'), 'C03': ("loop-position rule for the evaluator's allowing result; failure-closure (assume-failed reachability) of the per-key check in DeleteObjects", 'the evaluator returns an allowing result only after its statement loop, matcher loops return only the positive verdict from inside; once VerifyAccess refused a key of a batch the backend DeleteObjects is unreachable.'), 'C05': ('temp-directory origin rule for every openTmpFile; no package-level state on the request path', 'every temp file is created under the pruned temp directory; no package-level map, sync.Map or copy buffer is written on the request path.'), 'C07': ('page-full guard rule for fs.SkipAll; zone proof for narrowing conversions of parsed numbers', 'the walk ends early only behind the page-full test; max-keys is narrowed to int32 only where it is proven to fit.'), 'C08': ('produced-after rule (no part-list refusal after MkdirAll); operator rule for the part-order test', "no refusal of the part list is produced after the key's parent directories were created; a part number equal to its predecessor is refused."), 'C09': ('who-may-call rule for os.Link/os.Symlink (shared with C01)', 'a saved version is never a hard link to the object it saves.'), 'C10': ('same-target rule for the lock lookups; no package-level state in auth', 'GetObjectLegalHold/GetObjectRetention look only at the version the version id resolved to; no lock verdict is memoised per process.'), 'C11': ('temp-directory origin rule for every openTmpFile', 'unfinished files are created only under the pruned temp directory.'), 'C12': ('no package-level state in s3api/utils', 'no signing key or buffer is kept in package-level state between uploads.'), 'C14': ('loop-position rules shared with C03', 'same as C03: order of statements and map iteration order do not decide.'), 'C15': ('reads-do-not-write rule over the non-mutating rows of the operation table', 'no Get*/Head*/List* method of the posix backend reaches an attribute store/delete or a file removal, rename or creation.'), 'C17': ('no package-level state on the request path; constructor-only assignment of the cache map', "no per-process memo of request-dependent facts; the cache's map is never swapped for a copy."), 'C18': ('failure-closure of the upstream CreateBucket before PutBucketTagging', 'the ACL tag is written only onto a bucket this request created.'), 'C19': ('no-normalisation origin rule for the event key; not-in-a-loop rule for the delivery call', 'the notification names the key as requested; each event is delivered by a single attempt.'), 'C20': ('zone proof for narrowing conversions; result-pointer agreement between controllers and the posix backend; no unsynchronised package-level maps; non-nil bottom of the body-reader chain', 'the request body stream is the source of the reader chain only where it is known non-nil (fix 0dbe61a); a parsed number is narrowed only when it fits; every result field a controller dereferences unguarded is set in every result the posix backend returns on that path.'), 'C02': ('no package-level state (signing-key caches) and reader-chain rule', 'no key material is memoised per process.')}
 
+# Additions after the unseen batch 6 (DESIGN.md §5.6)
+ADD6 = {
+ 'C01': ('multipart ETag suffix rule shared with C08; every-origin form of the ETag provenance rule', 'the ETag suffix of a completed object is the number of listed parts; the stored ETag has no origin other than the digest of the copied bytes on any path.'),
+ 'C02': ('signer-per-request rule; attribute stores count as effects when a metadata store ignores the descriptor', 'every signer that recomputes a request signature is created in the verifying function (or its derived-key cache compares the secret); in PutObject/UploadPart no attribute store precedes the end of the body when some MetadataStorer addresses attributes by name (sidecar).'),
+ 'C03': ('leaf-behind-edge rule for sibling actions', 'where a decision chooses between an action and its ...Version sibling the plain action is used only on the versionId == "" edge.'),
+ 'C04': ('same-value rule in the parent-pruning loop', 'removeParents removes the directory whose etag marker it looked up.'),
+ 'C05': ('opened-before-return rule for the GET body', 'every non-nil Body of a posix.GetObject result is built on a file opened by os.Open inside GetObject.'),
+ 'C07': ('must-pass rule for the page size', 'once MaxKeys is known to be set every path to Walk/WalkVersions passes the assignment of *MaxKeys (no value, 0 included, is replaced by a default).'),
+ 'C08': ('every-origin form of the ETag provenance rule (shared with C01)', 'the part ETag stored by UploadPart/UploadPartCopy has no origin other than the MD5 of the copied bytes.'),
+ 'C09': ('result-consumption rule for the per-key callback of WalkVersions', 'every list (ObjectVersions, DelMarkers) of every callback result is read.'),
+ 'C10': ('must-pass rule for the legal-hold lookup; same-list rule for the batch lock check', 'no path from an object\'s retention lookup to the next object or the nil return avoids GetObjectLegalHold other than the NoSuchKey edge; CheckObjectAccess in DeleteObjects receives the decoded list that is handed to the backend.'),
+ 'C11': ('recursive-removal scope rule for DeleteBucket; os.Truncate added to the in-place write list', 'DeleteBucket removes the bucket or its whole temp directory recursively; no object is truncated in place.'),
+ 'C12': ('stale-tail rule for buffers shifted in place', 'after copy(x, x[k:]) in a chunk reader no call receives x at its old length (fix c4f3cd0).'),
+ 'C13': ('who-may-produce rule for InvalidRange', 'the front end never produces InvalidRange itself.'),
+ 'C14': ('every-iteration rule for the resource matcher', 'each resource pattern of a statement reaches Resources.Match; no test on the pattern text skips it.'),
+ 'C17': ('signer-per-request rule (shared with C02); written-back rule for updateAcc', 'a changed secret is used by the very next verification; the copy modified by updateAcc is stored (map element or storing call) before every success return.'),
+ 'C18': ('codec agreement rule for the ACL tag; input-lists-untouched rule', 'the ACL tag is decoded with the base64 alphabet it is encoded with; no S3Proxy method sorts, reverses or writes into a list of its input.'),
+ 'C19': ('same-cell rule for the event size', 'the ObjectSize of PutObject\'s success response is the length handed to the backend.'),
+ 'C20': ('dropped-error rule inside unbounded retry loops; sort-callback and boolean-guard idioms proved for the bounds-check census', 'no file-system call inside an unbounded retry loop of the back ends has its error dropped.'),
+}
+
 ADD = {
  "C01": ("hash-provenance rule (md5.New -> TeeReader -> copy -> Sum order), drain-before-Sum rule for HashReader, store/delete ordering rule, map-rooted-at-backend rule",
          "the stored ETag is hex(Sum()) of an md5 hash that is the TeeReader writer of the copied stream, finalised after the copy; a HashReader's Sum() is taken only after it was copied to its end; in-place metadata replacement deletes before it stores; no per-process maps hang off the backend struct."),
@@ -153,6 +174,9 @@ def main():
             if pid in ADD5:
                 tech = tech + "; added after unseen batch 5: " + ADD5[pid][0]
                 decided = decided + " Added after unseen batch 5 (DESIGN.md 5.5): " + ADD5[pid][1]
+            if pid in ADD6:
+                tech = tech + "; added after unseen batch 6: " + ADD6[pid][0]
+                decided = decided + " Added after unseen batch 6 (DESIGN.md 5.6): " + ADD6[pid][1]
             checks.append({
                 "property_id": pid,
                 "quick_cmd": f"/verif/bin/vgwsa check -prop {pid} -tier quick",
